@@ -103,6 +103,17 @@ func waitFor(cond func() bool) bool {
 	return cond()
 }
 
+func waitShort(cond func() bool) bool {
+	deadline := time.Now().Add(2 * time.Millisecond)
+	for time.Now().Before(deadline) {
+		if cond() {
+			return true
+		}
+		time.Sleep(100 * time.Microsecond)
+	}
+	return cond()
+}
+
 func viewTerm[T any](d *dials.Dials[T]) string {
 	return rty.StructFieldsTerm(reflect.ValueOf(d.View()).Elem())
 }
@@ -124,7 +135,7 @@ func runCase[T any](in input) childResult {
 
 	res := childResult{Kind: []string{"static", "failing-value", "watching", "failing-watch"}[in.Inner] + "-" + cname,
 		Tags: []string{fmt.Sprintf("type-%d", in.Type), "chain-" + cname}}
-	head := fmt.Sprintf("WCase %s %s %s", rty.FieldsTerm(t0), defTerm, xf.ChainTerm(chain))
+	head := fmt.Sprintf("WCase %s %s %s %s", rty.FieldsTerm(t0), defTerm, verifyRule(in.Type), xf.ChainTerm(chain))
 
 	// the harness's own transformer: translated type, filled values, reference values
 	tf := transform.NewTransformer(pt, xf.Manglers(chain)...)
@@ -209,6 +220,7 @@ func runCase[T any](in input) childResult {
 	view0 := viewTerm(d)
 	var steps []string
 	nErrSteps := 0
+	nRejected := 0
 	if in.Inner == 2 {
 		<-inner.ready
 		for s := 0; s < in.Steps; s++ {
@@ -223,11 +235,17 @@ func runCase[T any](in input) childResult {
 			} else {
 				retErr = inner.args.ReportNewValue(ctx, f.V)
 			}
+			// a blocking report that returned must already be reflected in the View
+			viewAtReturn := viewTerm(d)
 			// settle: a new version or an error event
 			settled := waitFor(func() bool {
 				_, sn := d.ViewVersion()
 				return sn != serialBefore || wrappedErrs.get() > errsBefore
 			})
+			if settled && wrappedErrs.get() == errsBefore {
+				// installed: give a (wrongly) concurrent error event the chance to show up
+				waitShort(func() bool { return wrappedErrs.get() > errsBefore })
+			}
 			if !settled {
 				res.Direct = append(res.Direct, fmt.Sprintf("step %d: neither a new version nor an error event within 3s", s))
 			}
@@ -235,9 +253,17 @@ func runCase[T any](in input) childResult {
 			if rd != nil {
 				if expect.Class() == "ok" {
 					<-refSrc.ready
-					if e := refSrc.args.BlockingReportNewValue(ctx, expect.V); e != nil {
-						// stacking may legitimately fail for both
-						_ = e
+					e := refSrc.args.BlockingReportNewValue(ctx, expect.V)
+					// the verdict of the re-stack (stacking / Verify failure) must come back
+					// through the wrapped blocking report exactly as it does natively
+					if blocking && (e != nil) != (retErr != nil) {
+						res.Direct = append(res.Direct, fmt.Sprintf("step %d: wrapped BlockingReportNewValue returned %v, natively it returns %v", s, retErr, e))
+					}
+					if !blocking && retErr != nil {
+						res.Direct = append(res.Direct, fmt.Sprintf("step %d: ReportNewValue of a reversible value returned %v", s, retErr))
+					}
+					if e != nil {
+						nRejected++
 					}
 				}
 				if !reflect.DeepEqual(d.View(), rd.View()) {
@@ -250,13 +276,13 @@ func runCase[T any](in input) childResult {
 					res.Direct = append(res.Direct, fmt.Sprintf("step %d: un-reversible value but no error was reported", s))
 				}
 			}
-			steps = append(steps, fmt.Sprintf("(WStep %s %s %s %s %d %s)", rty.StructFieldsTerm(f.V), f.Oracle, coqfmt.Bool(blocking),
-				viewTerm(d), wrappedErrs.get()-errsBefore, coqfmt.Bool(retErr != nil)))
+			steps = append(steps, fmt.Sprintf("(WStep %s %s %s %s %s %d %s)", rty.StructFieldsTerm(f.V), f.Oracle, coqfmt.Bool(blocking),
+				viewAtReturn, viewTerm(d), wrappedErrs.get()-errsBefore, coqfmt.Bool(retErr != nil)))
 		}
 	}
 	res.Coq = fmt.Sprintf("%s %s (Ok %s) %s", head, initTerm, view0, coqfmt.List(steps))
 	res.Nontrivial = in.Inner == 2 && in.Steps >= 2 && len(chain) >= 1
-	res.Tags = append(res.Tags, fmt.Sprintf("steps-%d", len(steps)), fmt.Sprintf("unreversible-steps-%d", nErrSteps))
+	res.Tags = append(res.Tags, fmt.Sprintf("steps-%d", len(steps)), fmt.Sprintf("unreversible-steps-%d", nErrSteps), fmt.Sprintf("rejected-by-verify-or-stack-steps-%d", nRejected))
 	return res
 }
 
@@ -271,7 +297,9 @@ type nativeWatcher struct {
 	ready chan struct{}
 }
 
-func (n *nativeWatcher) Value(context.Context, *dials.Type) (reflect.Value, error) { return n.first, nil }
+func (n *nativeWatcher) Value(context.Context, *dials.Type) (reflect.Value, error) {
+	return n.first, nil
+}
 func (n *nativeWatcher) Watch(_ context.Context, _ *dials.Type, args dials.WatchArgs) error {
 	n.args = args
 	close(n.ready)
@@ -288,8 +316,12 @@ func dispatch(in input) childResult {
 		return runCase[Cfg3](in)
 	case 3:
 		return runCase[Cfg4](in)
-	default:
+	case 4:
 		return runCase[Cfg5](in)
+	case 5:
+		return runCase[CfgV1](in)
+	default:
+		return runCase[CfgV2](in)
 	}
 }
 
@@ -398,7 +430,7 @@ func gen(r *coqfmt.Rng, n int, tier string) []json.RawMessage {
 		case 2:
 			inner = 3
 		}
-		b, _ := json.Marshal(input{K: "wrap", State: r.U64(), Type: r.Intn(5), Inner: inner, Steps: 1 + r.Intn(5)})
+		b, _ := json.Marshal(input{K: "wrap", State: r.U64(), Type: r.Intn(7), Inner: inner, Steps: 1 + r.Intn(5)})
 		out = append(out, b)
 	}
 	return out
@@ -412,8 +444,8 @@ func main() {
 	}
 	driver.Main(driver.Engine{
 		Prop: "C20", CoqImport: "Dials.Check.C20Check", CoqRun: "run_cases",
-		Rule: "five static config types (nesting by value/pointer, embedded value/pointer, alias tags on leaves and structs, sets, maps, []struct, [2]struct, durations, named scalars, TextUnmarshaler) x random defaults x a mangler chain from C10's generator (shipped chains, mixed chains, sub-chains) x inner source: static (1/10), failing Value (1/10), watching whose Watch fails (1/10), watching with 1-5 updates (7/10), each update a random filling of the translated type reported through ReportNewValue or BlockingReportNewValue; after every step the View is compared with a reference Dials fed the already-unmangled value and with the model (reverse-translate, then stack onto the defaults); non-trivial: watching inner source with >= 2 updates; distinct = distinct PRNG case states; every case runs in a child process",
-		Gen: gen, Run: run,
+		Rule: "seven static config types (two with a Verify method that rejects part of the update values: pointer and value receiver) (nesting by value/pointer, embedded value/pointer, alias tags on leaves and structs, sets, maps, []struct, [2]struct, durations, named scalars, TextUnmarshaler) x random defaults x a mangler chain from C10's generator (shipped chains, mixed chains, sub-chains) x inner source: static (1/10), failing Value (1/10), watching whose Watch fails (1/10), watching with 1-5 updates (7/10), each update a random filling of the translated type reported through ReportNewValue or BlockingReportNewValue; the value returned by every (Blocking)ReportNewValue is compared with the model (a blocking report returns the verdict of its own re-stack) and with the natively fed Dials, the View is read immediately after a blocking report returned and again after the update settled; after every step the View is compared with a reference Dials fed the already-unmangled value and with the model (reverse-translate, then stack onto the defaults); non-trivial: watching inner source with >= 2 updates; distinct = distinct PRNG case states; every case runs in a child process",
+		Gen:  gen, Run: run,
 	})
 	if cur != nil {
 		cur.stdin.Close()
